@@ -140,6 +140,24 @@ async fn sweep_episode(p: &EpParams, idx: u64) -> EpReport {
     rep.obs("handout_phase_us", (handout_phase / 1000) as i64);
     let dl = h + a;
 
+    // Month- and decade-long deadlines: two early looks (700 s and one hour after the hand-out, i.e.
+    // past the longest deadline a modification can set) before the long wait. A delivery that has
+    // come back by then is the finding; the episode ends there instead of sleeping for years
+    // beside a lease that expires every few minutes.
+    if a > 7200 * SEC && kind != "blocked" {
+        for look in [700 * SEC, 3600 * SEC] {
+            seq.advance_to(h + look).await;
+            let _ = seq.pull(&s, 10, true).await; // must be empty (model flags C04:early)
+            rep.inc("early_looks_under_long_deadlines");
+            if !seq.m.found.is_empty() {
+                seq.flush(&mut rep);
+                rep.key = format!("phase={} deadline={} kind={} ended-at-early-look", phase, d, kind);
+                rep.history = seq.history(60);
+                w.shutdown();
+                return rep;
+            }
+        }
+    }
     // --- the redelivery --------------------------------------------------------------------------
     let mut second_ack = String::new();
     match kind {
@@ -257,6 +275,7 @@ async fn random_episode(p: &EpParams) -> EpReport {
         crossings_after_ack: 0,
         modifies: 0,
         nacks: 0,
+        stream_acks: 0,
     };
     seq.create_topic(&c.t.clone()).await;
     let d1 = *rng.pick(&[0, 10, 12]);
